@@ -248,6 +248,22 @@ theorem C04_bool_line (cc : CharClasses) (hcc : Sane cc) (items : List (Item (Li
   intro a ha p rest hb
   exact C04_bool cc hcc a.1 a.2 ha p rest hb
 
+/-- The separation is needed: without it the number-line statement is false — two touching float
+literals `1.5` `.5` are not read as two numbers (the look-ahead of the regexes rejects `1.5.5`; model and
+code agree on that, the property asks for numbers that are written apart). -/
+theorem C04_number_line_unseparated_false :
+    ¬ (∀ (items : List (Item NumLit)), (∀ i ∈ items, (∀ c ∈ i.ws, isWs c = true) ∧ i.lit.WF asciiCC) →
+        (tokens asciiCC .NUMBER (litLine NumLit.text items [])).toOption = some (items.map (fun i => i.lit.val))) := by
+  intro h
+  have := h [⟨[], .float ⟨[], .intDot '1' [] ['5'], none⟩⟩, ⟨[], .float ⟨[], .dotFrac '5' [], none⟩⟩] (by
+    intro i hi
+    simp only [List.mem_cons, List.not_mem_nil, or_false] at hi
+    rcases hi with hi | hi <;> subst hi
+    · exact ⟨by simp, ⟨Or.inl rfl, by decide, by simp⟩, Or.inl rfl⟩
+    · exact ⟨by simp, ⟨Or.inl rfl, by decide, by simp⟩, Or.inl rfl⟩)
+  revert this
+  decide +kernel
+
 /-- **Literals given as plain text.** `numLit?` is a hand-written scanner (sign, digits, '.', digits,
 exponent; ASCII digits) that does not use the regexes.  Every text it accepts is read completely by NUMBER
 at a number boundary: as an int when it is `[-+]?[0-9]+` (`litKind = 1`), else as a float (`litKind = 2`),
